@@ -357,7 +357,99 @@ def run_history(args):
     return part
 
 
+def run_two_live_writers(mode):
+    """Two recorder processes alive at once on one channel (a replacement recorder is started before the old one has
+    stopped) and the second one writes into the file period the first is still filling: whatever the second one is
+    told, the first one's file is published intact at its close and never changes afterwards.  The first recorder
+    runs as a subprocess under the shim and is held right after it has created its temporary file."""
+    import digital_rf as drf
+    from .. import fsctl
+
+    seed = core.seed()
+    part = core.new_part()
+    root = core.new_scratch()
+    case = {"two_live_writers": mode, "seed": seed}
+    base_cfg = rf.Cfg(n=N, d=D, fc=FC, sc=SC, **U.MODES[mode])
+
+    def bad(key, detail):
+        part["violations"].append(core.Violation(key, case, detail))
+
+    try:
+        top = os.path.join(root, "A")
+        chdir = os.path.join(top, "ch0")
+        os.makedirs(chdir)
+        start = first_of_file(20)
+        ca = rf.Cfg(**{**base_cfg, "start": start, "uuid": "recorder-a"})
+        cb = rf.Cfg(**{**base_cfg, "start": start + 1, "uuid": "recorder-b"})
+        ops_a = [("open", {}), ("w", 0, 2), ("w", 2, 1), ("close",)]
+        _, ma = crash_model(ca, ops_a)
+        sess = fsctl.host().start(top, chdir, ca, ops_a, seed, fsctl.plan(pause_after=1 << fsctl.KINDS["create"]))
+        held = False
+        wb = None
+        b_entered = False
+        while True:
+            ev = sess.next_pause()
+            if ev is None:
+                break
+            if not held and os.path.basename(ev[1].get("path") or "").startswith("tmp.rf@"):
+                held = True
+                # recorder A holds its temporary data file open; recorder B (this process) arrives
+                wb = rf.open_writer(drf, chdir, cb)
+                try:
+                    rf.do_write(wb, cb, seed, ("w", 0, 1), 0)
+                    b_entered = True
+                except Exception:  # noqa: BLE001
+                    pass
+        res = sess.result()
+        if not held:
+            raise core.HarnessError("recorder A was never held at its temporary file")
+        part["outcomes"]["second_live_writer:%s" % ("accepted" if b_entered else "refused")] += 1
+        before = file_hashes([top])
+        if res["status"] != 0 or not before:
+            bad({"class": "first_writer_file_missing"}, "the first recorder (exit status %r) did not publish its file" % res["status"])
+        later = first_of_file(26) - cb["start"]
+        try:
+            rf.do_write(wb, cb, seed, ("w", later, 2), 0)
+        except Exception:  # noqa: BLE001
+            part["outcomes"]["second_live_writer_later_write_refused"] += 1
+        wb.close()
+        after = file_hashes([top])
+        for fp, h in before.items():
+            if after.get(fp) != h:
+                bad({"class": "finalized_file_changed"}, "%s changed or vanished after the first recorder had published it" % os.path.basename(fp))
+        # the first recorder's samples are readable with their values
+        reader = drf.DigitalRFReader(top)
+        got = {}
+        try:
+            for k, arr in reader.read(start - 1 if start else 0, start + 8, "ch0").items():
+                for j_, row in enumerate(rf.norm_rows(rf.Cfg(**base_cfg), arr)):
+                    got[int(k) + j_] = row
+        except Exception as e:  # noqa: BLE001
+            bad({"class": "reader_raised", "exc": type(e).__name__}, repr(e))
+        miss = [k for k, row in ma.written.items() if got.get(k) != row]
+        if miss:
+            bad({"class": "roundtrip_mismatch"}, "samples %s written by the first recorder are not readable with their values" % sorted(miss)[:4])
+        reader.close()
+        part["evaluations"] += 1
+        part["traces"] += 1
+        part["transitions"] += len(res["ops"])
+        part["states"].add(core.canon(("two_live_writers", mode)))
+        part["nontrivial"].add(core.canon(("two_live_writers", mode)))
+    finally:
+        core.rm(root)
+    return part
+
+
+def crash_model(cfg, ops):
+    from .. import crash
+
+    return crash.model_prefixes(cfg, ops)
+
+
 def replay(case):
+    if "two_live_writers" in case:
+        os.environ["VERIF_SEED"] = str(case.get("seed", 0))
+        return [(v["key"], v["detail"]) for v in run_two_live_writers(case["two_live_writers"])["violations"]]
     os.environ["VERIF_SEED"] = str(case.get("seed", 0))
     part = run_history((case["mode"], [tuple(c) for c in case["history"]]))
     return [(v["key"], v["detail"]) for v in part["violations"]]
@@ -390,5 +482,7 @@ def main(tier):
     rot = core.seed() % max(1, len(jobs))
     jobs = jobs[rot:] + jobs[:rot]
     for part in core.pmap(run_history, jobs, chunksize=8):
+        chk.merge(part)
+    for part in core.pmap(run_two_live_writers, ["gapped", "cont"], chunksize=1, isolate=False):
         chk.merge(part)
     return chk.finish()
